@@ -15,7 +15,7 @@ def sendtoChecks : List String := [
   "response, err := f(); err != nil",
   "response == nil",
   "len(response) != 64",
-  "ID := binary.LittleEndian.Uint32(response[4:8]); serialNumber == 0 && ID != serialNumber",
+  "ID := binary.LittleEndian.Uint32(response[4:8]); serialNumber != 0 && ID != serialNumber",
   "v, err := codec.UnmarshalAs(response, reply); err != nil"]
 
 /-- IP and port `resolve` uses when no broadcast address is configured -/
